@@ -68,9 +68,20 @@ theorem skel_nextMessage_shape :
   "  c.errLk.Unlock()",
   "  close(c.incoming)",
   "  return",
+  "// While this goroutine waits for the connection loop to take the message nobody // is reading from the connection, so no read deadline can expire. If the loop is // inside a write to a peer that has fallen silent (a write has no deadline of its // own) it never comes back for the message: bound the wait like a read is bounded. var handoffTimeout <-chan time.Time",
+  "if c.timeout > 0",
+  "  t := time.NewTimer(c.timeout)",
+  "  defer t.Stop()",
+  "  handoffTimeout = t.C",
   "select",
   "  case c.incoming <- r",
-  "  case <-c.exiting"] := rfl
+  "  case <-c.exiting",
+  "  case <-handoffTimeout",
+  "    c.errLk.Lock()",
+  "    c.incomingErr = errors.New(\"connection loop did not take a message within the timeout\")",
+  "    c.errLk.Unlock()",
+  "    _ = conn.Close()",
+  "    close(c.incoming)"] := rfl
 
 /-- autoResetReader wraps the frame reader -/
 theorem skel_autoResetReader_shape :
